@@ -159,6 +159,31 @@ func runC14(seed int64, n int, tier string, outDir string) (*Report, error) {
 		rep.Exhaustive = true
 		rep.Notes = append(rep.Notes, fmt.Sprintf("all %d ordered pairs of the grid evaluated natively", len(grid)*len(grid)))
 	}
+	// IRIs that carry a second "://" (a URL inside a query value): equality must still look at the whole IRI
+	var nested []string
+	for _, h := range []string{"a.example", "b.example"} {
+		for _, pth := range []string{"/r", "/q"} {
+			for _, tail := range []string{"?next=http://t.example/x", "?u=https://t.example/y&v=1"} {
+				nested = append(nested, "https://"+h+pth+tail)
+			}
+		}
+	}
+	for ai, a := range nested {
+		for bi, b := range nested {
+			for _, cs := range []bool{false, true} {
+				obs := ap.IRI(a).Equals(ap.IRI(b), cs)
+				want := c14RefEqual(c14Norm(a), c14Norm(b), cs)
+				rep.Evaluations++
+				rep.Count("nested-url-pair")
+				if obs != want {
+					rep.Violate(Violation{Op: "IRI.Equals", Input: []any{a, b, cs}, Expected: fmt.Sprint(want), Observed: fmt.Sprint(obs), Class: c14Class(a, b)})
+				}
+				if (ai+bi)%2 == 0 || ai == bi {
+					cw.Add("("+hx([]byte(a))+", "+hx([]byte(b))+", "+cbool(cs)+", "+cbool(obs)+")", fmt.Sprintf("nested %d %d cs=%v", ai, bi, cs))
+				}
+			}
+		}
+	}
 	// arbitrary strings: reflexive and symmetric; IRIs.Contains agrees with Equals
 	junk := append([]string{}, c14Junk...)
 	for i := 0; i < 40; i++ {
